@@ -281,7 +281,7 @@ impl Family for C06Family {
                 first.cancel_after = None;
                 first.user.clear();
                 let seam = if matches!(first.kind, OpKind::Register(_) | OpKind::MakeCredential(_)) { SeamKind::Save } else { SeamKind::Update };
-                first.faults = vec![Fault { seam, nth: 0, status: *r.pick(&[0x28u8, 0x7F, 0x2E, 0x06]), sticky: false }];
+                first.faults = vec![Fault { seam, nth: 0, status: *r.pick(&[0x28u8, 0x7F, 0x2E, 0x06]), sticky: false, late: false }];
                 c.actors[a].ops.insert(i + 1, again);
             }
         }
